@@ -1,7 +1,8 @@
 /- Line-protocol handler for C13.
 Request: `<builtin> <arg> …` where an argument is a canonical value (`[1,s:61]`, `s:…`, `b:…`,
 `v[…]`, `stream[…]`, `d[…]` = a dictionary seen as its keys in iteration order) or a closure
-`f:<name>` / `f:<name>:<canonical constant>`.  Prefix `sorted!` before the builtin sorts the
+`f:<name>` / `f:<name>:<canonical constant>`.  `chain x0 op1 x1 op2 x2 …` evaluates a chained infix expression (merging as `try_chain` does);
+`w<pos>[…]` is `stream(seq)` advanced to position `pos`.  Prefix `sorted!` before the builtin sorts the
 top-level list of the result by rendered text (results whose order comes out of a `HashMap`).
 Response: `<impl>\t<spec>`. -/
 import NoulithModel.Spec.SeqLibCall
@@ -37,8 +38,22 @@ def renderSorted (v : Val) : String :=
   | .list xs => "[" ++ joinWith "," ((Val.renderList xs).foldr insertStr []) ++ "]"
   | v => v.render
 
+/-- `x0 op1 x1 op2 x2 …` -/
+def parseChain : List String → Option (List (String × Arg))
+  | [] => some []
+  | op :: x :: rest =>
+    match parseArg x, parseChain rest with
+    | some a, some r => some ((op, a) :: r)
+    | _, _ => none
+  | _ => none
+
 def handle (args : List String) : String :=
   match args with
+  | "chain" :: x0 :: rest =>
+    match parseArg x0, parseChain rest with
+    | some a, some ops =>
+      (evalChain implLib a ops).render Val.render ++ "\t" ++ (evalChain specLib a ops).render Val.render
+    | _, _ => "bad-op"
   | "sorted!" :: name :: rest =>
     match parseArgs rest with
     | some as => (call implLib name as).render renderSorted ++ "\t" ++ (call specLib name as).render renderSorted
